@@ -135,6 +135,7 @@ theorem linspace_agree (P i : Nat) (hP : 0 < P) (hi : i ≤ P) :
 theorem cosWindow_agree (α β : ℝ) (P n : Nat) (hP : 2 ≤ P) :
     torchCosWindow α β P n = npCosWindow α β P n := by
   unfold torchCosWindow npCosWindow
+  rw [if_neg (by omega), if_neg (by omega)]
   have h1 : ((P - 1 : Nat) : ℝ) = (P : ℝ) - 1 := by rw [Nat.cast_sub (by omega)]; simp
   have hne : (P : ℝ) - 1 ≠ 0 := by
     have : (2 : ℝ) ≤ P := by exact_mod_cast hP
